@@ -80,6 +80,10 @@ def gen_row(rng, maxsegs=3):
 
 def gen_input(rng):
     rows = [gen_row(rng) for _ in range(rng.range(1, 5))]
+    if rng.chance(1, 4):
+        # the same row several times in a row (table rows, lanes)
+        i = rng.below(len(rows))
+        rows[i:i + 1] = [rows[i]] * rng.range(2, 3)
     return "\n".join(rows)
 
 
